@@ -328,6 +328,16 @@ class Ref:
             if not ok:
                 return
         x.demands.append(Demand(due, [cause]))
+        # C01, second sentence, applied to the step that is now known to be required: X will have to step at `due`, so no
+        # simulator it feeds may already have begun a step at or after the delayed output time of that step
+        if self.on('C01'):
+            for c in self.conns:
+                if c.ss == x.sid and c.ds != x.sid and not c.async_only:
+                    y = self.sims[c.ds]
+                    ydue = self.shift(c, due)
+                    for st in y.done:
+                        self.check('C01', lex_lt(st.tau, ydue), 'C01.late',
+                                   lambda: f'{x.sid} must still step at {fmt(due)} ({self._cz(cause)}) but its consumer {c.ds} has already begun {fmt(st.tau)} (output due at {fmt(ydue)})')
 
     def on_get_data_end(self, sid, data):
         s = self.sims[sid]
